@@ -6,6 +6,7 @@ from simkit import common, hostgen, host, world, shims, kernel
 
 HIT_SRC = '''
 G_HOST = 4242
+x = 'GLOBAL-X'     # hit() has a local of this name, not yet bound at the tracepoint line: the global is not visible there
 G_LIST = [1, 2, 3]
 val = -999
 name = 'GLOBALNAME'
@@ -33,6 +34,15 @@ class BadNum:
     __repr__ = __str__
 
 G_BADNUM = BadNum()
+G_TAB = {}
+
+class RudeErr(Exception):
+    """An error whose own text cannot be had."""
+    def __str__(self):
+        raise HostBase('no str for the error either')
+
+def host_raise_rude():
+    raise RudeErr()
 
 class Person:
     def __init__(self, name, age):
@@ -72,6 +82,17 @@ def gen_rows(r, n):
     for i in range(n):
         rows.append([r.random() < 0.5, r.choice((0, 1, 7, -3, 2.5, 1000)), r.choice(("bob", "alice", "true", "Zoë", ""))])
     return rows
+
+
+def etext(val):
+    """Text of the exception a reference evaluation ended with ('' when it has none to give)."""
+    if isinstance(val, NameError) and getattr(val, "name", None) == "x":
+        # the local that is not bound yet: how the failure is worded (NameError / UnboundLocalError) is not demanded
+        return ""
+    try:
+        return str(val)
+    except BaseException:  # noqa
+        return ""
 
 
 class Hit:
